@@ -484,6 +484,12 @@ def run(ctx):
         last_field = max(i for i, r in enumerate(rows) if r[0] == "F")
         filler = ["F", "filler_column", "", "X", "3" if model.kind == "fixed" else "", "Constant", ""]
         check_accept(ctx, rows[: last_field + 1] + [filler] + rows[last_field + 1 :], "always-empty-constant")
+        # two fields whose names differ in their letter case only: two names
+        first_name = rows[min(i for i, r in enumerate(rows) if r[0] == "F")][1]
+        other_case = first_name.swapcase()
+        if other_case != first_name and other_case.lower() not in [r[1] for r in rows if r[0] == "F"] and other_case not in [r[1] for r in rows if r[0] == "F"]:
+            twin = ["F", other_case, "", "X", "3" if model.kind == "fixed" else "", "Text", ""]
+            check_accept(ctx, rows[: last_field + 1] + [twin] + rows[last_field + 1 :], "field-names-that-differ-in-case-only")
         # a free-text example with blanks around it: accepted, and kept as typed
         if model.kind != "fixed" and not any(r[0] == "D" and r[1].lower() == "allowed characters" for r in rows):
             spaced = rows[: last_field + 1] + [["F", "free_text_column", " x ", "", "3", "Text", ""]] + rows[last_field + 1 :]
